@@ -26,6 +26,7 @@ import ponyutil
 
 TABLES = ['t', 'u', 't_u', 'h', 'raw_t']          # fixed order: table index = first component of a row key
 KEY_MUL = 100000
+BIG_ROWS, BIG_WIDTH = 150, 1500
 
 EXC_CLASSES = [sqlite3.OperationalError, sqlite3.IntegrityError, sqlite3.ProgrammingError, sqlite3.DatabaseError,
                sqlite3.InterfaceError, sqlite3.InternalError, sqlite3.DataError, sqlite3.NotSupportedError, sqlite3.Error,
@@ -68,9 +69,14 @@ def define(tr, path):
             select(t for t in T if t.x == self.v)[:]
         def after_insert(self):
             if self.v % 2 == 0: T(x=1000 + self.v)
+    class B(db.Entity):
+        """many wide rows: one session rewrites all of them (a commit that has to write many pages)"""
+        _table_ = 'big'
+        gen = Required(int)
+        payload = Required(str)
     db.bind('sqlite', path, create_db=True, timeout=0.5, **tr.bind_kwargs())
     E = Env()
-    E.db = db; E.T = T; E.U = U; E.H = H
+    E.db = db; E.T = T; E.U = U; E.H = H; E.B = B
     E.db_session = db_session; E.select = select; E.commit = commit; E.rollback = rollback; E.flush = flush; E.delete = delete
     return E
 
@@ -90,6 +96,10 @@ def make_template(path):
         E.db.execute('insert into raw_t (a, b) values (1, 10)')
         E.db.execute('insert into raw_t (a, b) values (2, 20)')
     E.db.disconnect()
+    con = sqlite3.connect(path, isolation_level=None)
+    con.execute('begin')
+    con.executemany('insert into big (gen, payload) values (0, ?)', [('a' * BIG_WIDTH,)] * BIG_ROWS)
+    con.execute('commit'); con.close()
     tr.cleanup()
 
 
@@ -352,6 +362,42 @@ def kill_case(template, workdir, case, kill):
     return res
 
 
+def timed_kill_case(template, workdir, case_id, delay):
+    """all-or-nothing at an ARBITRARY instant (also inside COMMIT): a child rewrites every row of `big` in one session per
+    generation, again and again; it is killed by SIGKILL `delay` seconds after its first commit; every row the parent
+    then reads must carry the same generation"""
+    path = os.path.join(workdir, 'big%d.sqlite' % case_id)
+    shutil.copyfile(template, path)
+    r, w = os.pipe()
+    sys.stdout.flush(); sys.stderr.flush()
+    pid = os.fork()
+    if pid == 0:
+        try:
+            os.close(r)
+            tr = Tracer()
+            E = define(tr, path)
+            E.db.generate_mapping(create_tables=False, check_tables=False)
+            for gen in range(1, 100000):
+                with E.db_session:
+                    for b in E.B.select():
+                        b.gen = gen; b.payload = chr(97 + gen % 26) * BIG_WIDTH
+                if gen == 1: os.write(w, b'x')
+        finally:
+            os._exit(5)
+    os.close(w)
+    os.read(r, 1); os.close(r)
+    time.sleep(delay)
+    os.kill(pid, signal.SIGKILL)
+    os.waitpid(pid, 0)
+    journal = os.path.exists(path + '-journal')
+    con = sqlite3.connect(path, timeout=5.0, isolation_level=None)
+    rows = con.execute('select gen, substr(payload, 1, 1), length(payload), count(*) from big group by 1, 2, 3').fetchall()
+    con.close()
+    for ext in ('', '-journal'):
+        if os.path.exists(path + ext): os.remove(path + ext)
+    return {'groups': [list(x) for x in rows], 'journal_left': journal}
+
+
 def _child_session(template, path, case, kill):
     for ext in ('', '-journal', '-wal', '-shm'):
         if os.path.exists(path + ext): os.remove(path + ext)
@@ -485,6 +531,8 @@ def case_key(kind, case):
 def _worker(args):
     template, workdir, case = args
     try:
+        if case.get('timed') is not None:
+            return case['id'], timed_kill_case(template, workdir, case['id'], case['timed'])
         if case.get('kill') is not None:
             return case['id'], kill_case(template, workdir, case, case['kill'])
         return case['id'], run_case_thread(template, workdir, case)
@@ -546,6 +594,10 @@ def run(ctx):
         ponyutil.rmtree(workdir)
 
 
+QUICK_FULL_FAULTS = ('create', 'raw', 'm2m', 'commit_mid', 'serializable', 'hooks')      # every call index, quick tier too
+QUICK_FULL_KILLS = ('raw', 'commit_mid')
+
+
 def _run(ctx, workdir):
     rng = ctx.rng
     template = os.path.join(workdir, 'template.sqlite')
@@ -557,7 +609,7 @@ def _run(ctx, workdir):
     for name, opts, prog in FIXED_PROGRAMS:
         g.add(name, prog, opts, warm=False)
         if ctx.thorough or name in ('create', 'raw', 'immediate', 'commit_mid'): g.add(name, prog, opts, warm=True)
-    for i in range(ctx.scale(14, 120)):
+    for i in range(ctx.scale(14, 150)):
         g.add('random%d' % i, random_program(rng), rng.choice(list(SESSION_OPTS)), warm=rng.random() < 0.3)
     baselines = list(g.cases)
     res = run_cases(baselines, template, workdir)
@@ -568,11 +620,9 @@ def _run(ctx, workdir):
         obs = res[b['id']]
         if 'crash' in obs: raise RuntimeError('harness crashed on %r:\n%s' % (case_json(b), obs['crash']))
         n = len(obs['events'])
-        b['n'] = n
         ks = list(range(n))
-        quick_fixed = b['name'] in ('create', 'raw', 'm2m', 'commit_mid', 'serializable', 'hooks')
-        if not ctx.thorough and not (quick_fixed and not b['warm']):
-            ks = sorted(rng.sample(ks, min(len(ks), 5)))
+        full = ctx.thorough or (b['name'] in QUICK_FULL_FAULTS and not b['warm'])
+        if not full: ks = sorted(rng.sample(ks, min(len(ks), 4)))
         for k in ks:
             cls = EXC_CLASSES[(b['id'] + k) % len(EXC_CLASSES)].__name__
             call = obs['events'][k]['call']
@@ -585,25 +635,27 @@ def _run(ctx, workdir):
                 g.add(b['name'], b['program'], b['opts'], b['warm'], faults=[[k, cls, 'before'], [k + d, 'OperationalError', 'before']], parent=b['id'])
             if ctx.thorough and k % 3 == 0:
                 g.add(b['name'], b['program'], b['opts'], b['warm'], faults=[[k, ['MemoryError', 'KeyboardInterrupt'][k % 2], 'before']], parent=b['id'])
-        # every exception class at the first write and at the commit
-        if quick_fixed or ctx.thorough:
+        # every exception class at the first write and at the first commit
+        if (b['name'] in QUICK_FULL_FAULTS and not b['warm']) or (ctx.thorough and not b['name'].startswith('random')):
             firstw = [i for i, e in enumerate(obs['events']) if e['kind'] in ('insert', 'update', 'delete')][:1]
             commits = [i for i, e in enumerate(obs['events']) if e['call'] == 'commit'][:1]
             for k in firstw + commits:
                 for c in EXC_CLASSES: g.add(b['name'], b['program'], b['opts'], b['warm'], faults=[[k, c.__name__, 'before']], parent=b['id'])
         # SIGKILL
         kks = list(range(n + 1))
-        if not ctx.thorough and not (quick_fixed and not b['warm']):
-            kks = sorted(rng.sample(kks, min(len(kks), 3)))
+        if not (ctx.thorough or (b['name'] in QUICK_FULL_KILLS and not b['warm'])):
+            kks = sorted(rng.sample(kks, min(len(kks), 2)))
         for k in kks:
             if k < n: g.add(b['name'], b['program'], b['opts'], b['warm'], kill=['before', k], parent=b['id'])
             else: g.add(b['name'], b['program'], b['opts'], b['warm'], kill=['after', n - 1], parent=b['id'])
+    for i in range(ctx.scale(3, 40)):
+        c = g.add('big', [], 'optimistic', False); c['timed'] = round(rng.uniform(0.0, 0.25), 3)
     derived = g.cases[len(baselines):]
     res.update(run_cases(derived, template, workdir))
     ctx.extra['real_runs_s'] = round(time.time() - t0, 1)
 
     # ---- 3. model ---------------------------------------------------------------------------------------------------
-    inproc = [c for c in g.cases if c['kill'] is None]
+    inproc = [c for c in g.cases if c['kill'] is None and c.get('timed') is None]
     for c in inproc:
         obs = res[c['id']]
         if 'crash' in obs: raise RuntimeError('harness crashed on %r:\n%s' % (case_json(c), obs['crash']))
@@ -615,22 +667,62 @@ def _run(ctx, workdir):
         models = {c['id']: m for c, m in zip(inproc, outs)}
 
     # ---- 4. evaluate ------------------------------------------------------------------------------------------------
+    shrunk = 0
     for c in inproc:
         obs = res[c['id']]
         ctx.case([c['program'], c['opts'], c['warm'], c['faults']], nontrivial=True, kind='fault' if c['faults'] else 'baseline')
         stats(ctx, c, obs)
+        probs = [p for p in oracle(c, obs) if p[0] != 'harness']
+        if probs and shrunk < 3:
+            shrunk += 1
+            c2, obs2 = shrink(template, workdir, c, probs[0][0])
+            if c2 is not c:
+                evaluate(ctx, c2, obs2, None)
         evaluate(ctx, c, obs, models.get(c['id']))
         m = models.get(c['id'])
         if m is not None and 'driver_error' not in m:
             for p in m['phases']: ctx.count('model-phase:' + p)
             ctx.count('model-txns:%d' % len(m['txns']))
     for c in g.cases:
-        if c['kill'] is None: continue
         r = res[c['id']]
+        if c.get('timed') is not None:
+            if 'crash' in r: raise RuntimeError('harness crashed on timed kill:\n%s' % r['crash'])
+            ctx.case(['big', c['timed']], nontrivial=True, kind='timed-kill')
+            if r['journal_left']: ctx.count('timed-kill:hot-journal-left')
+            ctx.count('timed-kill:generations-done:%s' % ('0' if r['groups'] and r['groups'][0][0] == 0 else '1-9' if r['groups'] and r['groups'][0][0] < 10 else '10+'))
+            ok = len(r['groups']) == 1 and r['groups'][0][3] == BIG_ROWS and r['groups'][0][2] == BIG_WIDTH and r['groups'][0][1] == chr(97 + r['groups'][0][0] % 26)
+            if not ok:
+                ctx.violation('after SIGKILL at an arbitrary instant the rows rewritten by one session carry different generations',
+                              {'timed_kill_delay': c['timed'], 'rows': BIG_ROWS}, observed=r['groups'], expected='one group: every row in the same generation',
+                              key='timed-kill-partial')
+            continue
+        if c['kill'] is None: continue
         if 'crash' in r: raise RuntimeError('harness crashed on %r:\n%s' % (case_json(c), r['crash']))
         base = res[c['parent']]
         ctx.case([c['program'], c['opts'], c['warm'], c['kill']], nontrivial=True, kind='kill')
         evaluate_kill(ctx, c, r, base, models.get(c['parent']))
+
+
+def shrink(template, workdir, case, kind):
+    """greedy removal of program steps / faults while the oracle still reports a problem of the same kind"""
+    best, best_obs = case, None
+    budget = 30
+    changed = True
+    while changed and budget > 0:
+        changed = False
+        cands = [dict(best, program=best['program'][:i] + best['program'][i + 1:], faults=[]) for i in range(len(best['program']))] if not best['faults'] else []
+        if best['faults']: cands.append(dict(best, faults=[]))
+        if len(best['faults']) > 1: cands += [dict(best, faults=[f]) for f in best['faults']]
+        for c2 in cands:
+            budget -= 1
+            if budget < 0: break
+            c2 = dict(c2, id=900000 + budget)
+            obs = run_case_thread(template, workdir, c2)
+            if 'crash' in obs: continue
+            if any(p[0] == kind for p in oracle(c2, obs)):
+                best, best_obs, changed = c2, obs, True
+                break
+    return best, best_obs
 
 
 def expected_after_kill(base, kill):
